@@ -79,6 +79,9 @@ func features(c Case) []string {
 			set[f] = true
 		}
 	} else {
+		if c.Mode == "ill" && !identityPerm(c.Perm) {
+			set["ill-typed-history"] = true
+		}
 		for i := range shapes {
 			s := &shapes[i]
 			for _, ctx := range c.Ctxs {
@@ -100,6 +103,13 @@ func features(c Case) []string {
 // avoidOpenFindings moves a freshly generated case out of every open finding's shape.
 func avoidOpenFindings(c *Case) {
 	open := pbt.OpenFindings(prop)
+	if c.Mode == "ill" && pbt.Open(prop, "ill-typed-history") && !identityPerm(c.Perm) {
+		// both instances then see the same history: the order-dependence of ill-typed expressions cannot show
+		for i := range c.Perm {
+			c.Perm[i] = i
+		}
+		c.Excl = append(c.Excl, "ill-typed-history~")
+	}
 	for pass := 0; pass < 3; pass++ {
 		changed := false
 		for _, f := range open {
@@ -137,6 +147,15 @@ func avoidOpenFindings(c *Case) {
 		// nothing left to run for this expression: keep the case (it is counted as excluded)
 		c.Ctxs = nil
 	}
+}
+
+func identityPerm(p []int) bool {
+	for i, x := range p {
+		if x != i {
+			return false
+		}
+	}
+	return true
 }
 
 func dropCtx(c *Case, ctx string) {
